@@ -11,7 +11,8 @@ CHECK = {
             "(mostly-valid structured requests: route drawn with weights, 1/4 one path part invalid, 1/8 wrong method, options present w.p. ~0.2 of which 1/9 invalid, "
             "repeated keys, malformed escapes, metadata, credentials); client suite: every client method x credentials x cluster answer (1611 systematic, 13 client credential settings x 3 configurations) + random calls with generated "
             "options, paths (namespaced, bare, invalid, with URL-significant characters) and filters; add suite: multipart ok/none/junk x every add option valid/empty/invalid x pin options, "
-            "buffered and streamed (556 systematic, full header grid) + random; non-trivial = every case (each is constrained by the gate / refusal / faithfulness clauses); distinct by case line",
+            "buffered and streamed (556 systematic, full header grid) + the CID-builder grid hash {absent, sha2-256, sha3-512, blake2b-256} x cid-version {absent, 0, 1} x raw-leaves {absent, false, true} streamed and buffered and with wrap / chunker / trickle / progress (the same group drawn together in 1/4 of the random cases) + random; "
+            "after every add case an addp case: the real api.AddParamsFromQuery on the same query, its AddParams printed field by field and compared with the Lean model addParams, clause options_exact (every add option carried by name arrives unchanged, absent ones have the documented defaults); the add case also reports the leaf form (raw/pb) of the blocks the recording IPFSConnector received and the root CID's version and codec are compared too; non-trivial = every case (each is constrained by the gate / refusal / faithfulness clauses); distinct by case line",
     "trusted_base": ["recording RPC services behind the real rest.API on loopback listeners (in-process gorpc, no authorization layer); the bundled client against the same servers",
                      "net/http error log as panic detector",
                      "the harness's classification of each request part with cid.Decode / peer.Decode and its naming tables",
@@ -24,7 +25,9 @@ META = {
     "text": "Kernel-checked theorems over a Lean model of the REST request path (handler chain extracted from NewAPIWithHost, gorilla/mux routing over the "
             "route table extracted from routes(), one arm per handler): with credentials configured and no valid pair nothing is performed on any path and method; "
             "a request malformed for the route it addresses is refused 4xx with no operation; a well-formed one yields exactly the one RPC its route names with "
-            "exactly the CID/path/options carried; responses are single JSON documents. The model is tied to the code by regenerating the route table, wrapping "
+            "exactly the CID/path/options carried; responses are single JSON documents. On /add, AddParamsFromQuery is modelled field by field in the order the code applies "
+            "the cid-version / hash / raw-leaves interplay (add_seen_exact: every accepted query yields AddParams carrying each add option exactly, an explicit raw-leaves or "
+            "cid-version always wins; the reordered alternative is refuted with a witness) and compared with the real function and with the leaf form of the blocks put. The model is tied to the code by regenerating the route table, wrapping "
             "order and per-handler RPC names on every run (decide theorems over them) and by sending thousands of requests to the real API over recording RPC "
             "services, comparing status, body shape and recorded operations with the model and evaluating the Lean property clauses on the implementation's outputs.",
     "note": "Trusted: Lean kernel, hand-written model/spec, harness (recording services, classification of inputs), extractor. Known deviations of the unchanged tree "
